@@ -19,6 +19,7 @@ import inspect
 import math
 
 import numpy as np
+from hypothesis import reject
 from hypothesis import strategies as st
 
 from commonroad.common import common_lanelet as CL
@@ -63,36 +64,84 @@ def is_number(v):
 # ================================================================================================= kinds
 
 class Kind:
+    """gen(): Hypothesis strategy of values (built once per kind: strategy() caches it).
+    perturb(draw, v): another valid value, drawn imperatively through the Hypothesis draw function (building a fresh
+    strategy per value would dominate the run time)."""
     fixed = False
+    _cached = None
 
     def gen(self):
         raise NotImplementedError
 
-    def perturb(self, v):
+    def strategy(self):
+        if self._cached is None:
+            self._cached = self.gen()
+        return self._cached
+
+    def perturb(self, draw, v):
         raise NotImplementedError
 
     def accepts(self, v):
         return True
 
 
-def real_perturbation(v, lo, hi):
-    """Strategy of reals w with |w - v| >= 1e-6*(1+|v|), or an absolute 1e-9..1e-8 when |v| <= 1e3; inside [lo, hi]."""
+TRIES = 25
+_INDEX = {}
+
+
+def index(draw, n):
+    """Uniform index below n (strategies cached per n)."""
+    s = _INDEX.get(n)
+    if s is None:
+        s = _INDEX[n] = st.integers(0, n - 1)
+    return draw(s)
+
+
+def pick(draw, seq):
+    return seq[index(draw, len(seq))]
+
+
+def retry(draw, make, ok):
+    """Own bounded rejection loop; gives the case up (hypothesis.reject) when no candidate is admissible."""
+    for _ in range(TRIES):
+        w = make()
+        if ok(w):
+            return w
+    reject()
+
+
+F_ABS = st.floats(1e-9, 1e-8)
+F_MANT = st.floats(1.0, 9.5)
+_FRESH = {}
+
+
+def real_perturbation(draw, v, lo, hi):
+    """A real w with |w - v| >= 1e-6*(1+|v|), or an absolute 1e-9..1e-8 when |v| <= 1e3; inside [lo, hi]."""
     v = float(v)
 
-    def move(t):
-        mode, f_abs, dec, mant, sign = t
-        d = f_abs if (mode == "abs" and abs(v) <= ABS_LIMIT) else dec * mant * (1.0 + abs(v))
+    def ok(w):
+        if not lo <= w <= hi:
+            return False
+        d = abs(w - v)
+        return d >= 1e-6 * (1.0 + abs(v)) or (abs(v) <= ABS_LIMIT and 0.99e-9 <= d <= 1.01e-8)
+
+    def make():
+        mode = pick(draw, ["abs", "abs", "abs", "rel", "rel", "rel", "rel", "fresh"])
+        if mode == "fresh":
+            s = _FRESH.get((lo, hi))
+            if s is None:
+                s = _FRESH[(lo, hi)] = st.floats(lo, hi, allow_nan=False)
+            return draw(s)
+        sign = pick(draw, [-1.0, 1.0])
+        if mode == "abs" and abs(v) <= ABS_LIMIT:
+            d = draw(F_ABS)
+        else:
+            d = pick(draw, [1e-6, 1e-6, 1e-5, 1e-4, 1e-3]) * draw(F_MANT) * (1.0 + abs(v))
         w = v + sign * d
         if not lo <= w <= hi:
             w = v - sign * d
         return w
-    moved = st.tuples(st.sampled_from(["abs", "abs", "rel", "rel", "rel"]), st.floats(1e-9, 1e-8),
-                      st.sampled_from([1e-6, 1e-6, 1e-5, 1e-4, 1e-3]), st.floats(1.0, 9.5),
-                      st.sampled_from([-1.0, 1.0])).map(move)
-    fresh = st.floats(lo, hi, allow_nan=False)
-    ok = (lambda w: lo <= w <= hi and abs(w - v) >= 1e-6 * (1.0 + abs(v))
-          or (abs(v) <= ABS_LIMIT and lo <= w <= hi and 0.99e-9 <= abs(w - v) <= 1.01e-8))
-    return st.one_of(moved, moved, moved, fresh).filter(ok)
+    return retry(draw, make, ok)
 
 
 class Real(Kind):
@@ -105,8 +154,8 @@ class Real(Kind):
         return st.one_of(st.floats(self.lo, self.hi, allow_nan=False),
                          st.integers(math.ceil(self.lo), math.floor(self.hi)).map(float))
 
-    def perturb(self, v):
-        return real_perturbation(v, self.lo, self.hi)
+    def perturb(self, draw, v):
+        return real_perturbation(draw, v, self.lo, self.hi)
 
     def accepts(self, v):
         return is_number(v)
@@ -131,8 +180,8 @@ class Int(Kind):
     def gen(self):
         return st.integers(self.lo, self.hi)
 
-    def perturb(self, v):
-        return st.integers(self.lo, self.hi).filter(lambda w: w != v)
+    def perturb(self, draw, v):
+        return retry(draw, lambda: draw(self.strategy()), lambda w: w != v)
 
     def accepts(self, v):
         return isinstance(v, int) and not isinstance(v, bool)
@@ -147,8 +196,8 @@ class Choice(Kind):
     def gen(self):
         return st.sampled_from(self.pool)
 
-    def perturb(self, v):
-        return st.sampled_from([p for p in self.pool if p != v])
+    def perturb(self, draw, v):
+        return pick(draw, [p for p in self.pool if p != v])
 
     def accepts(self, v):
         return v in self.pool
@@ -162,8 +211,8 @@ class Bool(Kind):
     def gen(self):
         return st.booleans()
 
-    def perturb(self, v):
-        return st.just(not v)
+    def perturb(self, draw, v):
+        return not v
 
     def accepts(self, v):
         return isinstance(v, bool)
@@ -185,11 +234,15 @@ class EnumK(Kind):
     def gen(self):
         return st.sampled_from(self.values)
 
-    def perturb(self, v):
-        return st.sampled_from([w for w in self.values if w != v])
+    def perturb(self, draw, v):
+        return pick(draw, [w for w in self.values if w != v])
 
     def accepts(self, v):
         return isinstance(v, dict) and "$enum" in v
+
+
+def fresh(draw, kind, ok=lambda w: True):
+    return retry(draw, lambda: draw(kind.strategy()), ok)
 
 
 class Opt(Kind):
@@ -200,14 +253,14 @@ class Opt(Kind):
         self.inner = inner
 
     def gen(self):
-        return st.one_of(st.none(), self.inner.gen(), self.inner.gen())
+        return st.one_of(st.none(), self.inner.strategy(), self.inner.strategy())
 
-    def perturb(self, v):
+    def perturb(self, draw, v):
         if v is None:
-            return self.inner.gen().filter(lambda w: not is_empty(w))
-        if is_empty(v):
-            return self.inner.perturb(v)
-        return st.one_of(self.inner.perturb(v), self.inner.perturb(v), st.none())
+            return fresh(draw, self.inner, lambda w: not is_empty(w))
+        if is_empty(v) or index(draw, 3) < 2:
+            return self.inner.perturb(draw, v)
+        return None
 
 
 class Dflt(Kind):
@@ -218,16 +271,18 @@ class Dflt(Kind):
         self.inner, self.none = inner, none
 
     def gen(self):
-        return st.one_of(st.just(D), self.inner.gen(), self.inner.gen())
+        return st.one_of(st.just(D), self.inner.strategy(), self.inner.strategy())
 
-    def perturb(self, v):
+    def perturb(self, draw, v):
         if is_default(v):
             if self.none:
-                return self.inner.perturb(None)
-            return self.inner.gen().filter(lambda w: not is_empty(w))
+                return self.inner.perturb(draw, None)
+            return fresh(draw, self.inner, lambda w: not is_empty(w))
         if self.none and (v is None or is_empty(v)):
-            return self.inner.perturb(v)
-        return st.one_of(self.inner.perturb(v), self.inner.perturb(v), st.just(D))
+            return self.inner.perturb(draw, v)
+        if index(draw, 3) < 2:
+            return self.inner.perturb(draw, v)
+        return D
 
 
 def OD(inner):
@@ -240,20 +295,26 @@ class SetOf(Kind):
         self.elem, self.lo, self.hi = elem, lo, hi
 
     def gen(self):
-        return st.lists(self.elem.gen(), min_size=self.lo, max_size=self.hi, unique_by=canon).map(
+        return st.lists(self.elem.strategy(), min_size=self.lo, max_size=self.hi, unique_by=canon).map(
             lambda xs: {"$set": xs})
 
-    def perturb(self, v):
+    def perturb(self, draw, v):
         xs = v["$set"]
         keys = {canon(x) for x in xs}
-        opts = [self.elem.gen().filter(lambda e: canon(e) not in keys).map(lambda e: {"$set": xs + [e]})]
+        ops = ["add"]
         if len(xs) > self.lo:
-            opts.append(st.integers(0, len(xs) - 1).map(lambda i: {"$set": xs[:i] + xs[i + 1:]}))
+            ops.append("remove")
         if xs:
-            opts.append(st.tuples(st.integers(0, len(xs) - 1),
-                                  self.elem.gen().filter(lambda e: canon(e) not in keys)).map(
-                lambda t: {"$set": xs[:t[0]] + [t[1]] + xs[t[0] + 1:]}))
-        return st.one_of(*opts)
+            ops.append("replace")
+        op = pick(draw, ops)
+        if op == "remove":
+            i = index(draw, len(xs))
+            return {"$set": xs[:i] + xs[i + 1:]}
+        e = fresh(draw, self.elem, lambda w: canon(w) not in keys)
+        if op == "add":
+            return {"$set": xs + [e]}
+        i = index(draw, len(xs))
+        return {"$set": xs[:i] + [e] + xs[i + 1:]}
 
     def accepts(self, v):
         return isinstance(v, dict) and "$set" in v
@@ -275,18 +336,26 @@ class ListOf(Kind):
         kw = {}
         if self.key is not None:
             kw["unique_by"] = lambda x: canon(self.key(x))
-        return st.lists(self.elem.gen(), min_size=self.lo, max_size=self.hi, **kw).map(lambda xs: {"$list": xs})
+        return st.lists(self.elem.strategy(), min_size=self.lo, max_size=self.hi, **kw).map(
+            lambda xs: {"$list": xs})
 
-    def perturb(self, v):
+    def perturb(self, draw, v):
         xs = v["$list"]
-        opts = [self.elem.gen().map(lambda e: xs + [e])]
+        ops = ["append"]
         if len(xs) > self.lo:
-            opts.append(st.integers(0, len(xs) - 1).map(lambda i: xs[:i] + xs[i + 1:]))
+            ops.append("remove")
         if xs:
-            one = st.integers(0, len(xs) - 1).flatmap(
-                lambda i: self.elem.perturb(xs[i]).map(lambda e: xs[:i] + [e] + xs[i + 1:]))
-            opts += [one, one]
-        return st.one_of(*opts).filter(self._ok).map(lambda ys: {"$list": ys})
+            ops += ["change", "change"]
+
+        def make():
+            op = pick(draw, ops)
+            if op == "append":
+                return xs + [draw(self.elem.strategy())]
+            i = index(draw, len(xs))
+            if op == "remove":
+                return xs[:i] + xs[i + 1:]
+            return xs[:i] + [self.elem.perturb(draw, xs[i])] + xs[i + 1:]
+        return {"$list": retry(draw, make, self._ok)}
 
     def accepts(self, v):
         return isinstance(v, dict) and "$list" in v
@@ -297,20 +366,25 @@ class DictOf(Kind):
         self.key, self.val, self.lo, self.hi = key, val, lo, hi
 
     def gen(self):
-        return st.lists(st.tuples(self.key.gen(), self.val.gen()).map(list), min_size=self.lo, max_size=self.hi,
-                        unique_by=lambda kv: canon(kv[0])).map(lambda kvs: {"$dict": kvs})
+        return st.lists(st.tuples(self.key.strategy(), self.val.strategy()).map(list), min_size=self.lo,
+                        max_size=self.hi, unique_by=lambda kv: canon(kv[0])).map(lambda kvs: {"$dict": kvs})
 
-    def perturb(self, v):
+    def perturb(self, draw, v):
         kvs = v["$dict"]
         keys = {canon(k) for k, _ in kvs}
-        opts = [st.tuples(self.key.gen().filter(lambda k: canon(k) not in keys), self.val.gen()).map(
-            lambda t: kvs + [list(t)])]
+        ops = ["add"]
         if len(kvs) > self.lo:
-            opts.append(st.integers(0, len(kvs) - 1).map(lambda i: kvs[:i] + kvs[i + 1:]))
+            ops.append("remove")
         if kvs:
-            opts.append(st.integers(0, len(kvs) - 1).flatmap(
-                lambda i: self.val.perturb(kvs[i][1]).map(lambda w: kvs[:i] + [[kvs[i][0], w]] + kvs[i + 1:])))
-        return st.one_of(*opts).map(lambda x: {"$dict": x})
+            ops += ["change", "change"]
+        op = pick(draw, ops)
+        if op == "add":
+            k = fresh(draw, self.key, lambda w: canon(w) not in keys)
+            return {"$dict": kvs + [[k, draw(self.val.strategy())]]}
+        i = index(draw, len(kvs))
+        if op == "remove":
+            return {"$dict": kvs[:i] + kvs[i + 1:]}
+        return {"$dict": kvs[:i] + [[kvs[i][0], self.val.perturb(draw, kvs[i][1])]] + kvs[i + 1:]}
 
     def accepts(self, v):
         return isinstance(v, dict) and "$dict" in v
@@ -325,35 +399,40 @@ class KwArgs(Kind):
     def gen(self):
         names = list(self.fields)
 
-        def pick(mask):
-            chosen = [n for n, m in zip(names, mask) if m or n in self.required]
-            return st.tuples(*[self.fields[n].gen() for n in chosen]).map(
-                lambda vals: {"$dict": [[n, w] for n, w in zip(chosen, vals)]})
-        full = st.lists(st.booleans(), min_size=len(names), max_size=len(names)).flatmap(pick)
+        def chosen(t):
+            mask, vals = t
+            return {"$dict": [[n, w] for n, m, w in zip(names, mask, vals) if m or n in self.required]}
+        full = st.tuples(st.lists(st.booleans(), min_size=len(names), max_size=len(names)),
+                         st.tuples(*[self.fields[n].strategy() for n in names])).map(chosen)
         if self.allow_empty:
             return st.one_of(full, full, full, full, st.just({"$dict": []}))
         return full
 
-    def perturb(self, v):
+    def perturb(self, draw, v):
         kvs = v["$dict"]
         present = [k for k, _ in kvs]
         absent = [n for n in self.fields if n not in present]
-        opts = []
-        if kvs:
-            ch = st.integers(0, len(kvs) - 1).flatmap(
-                lambda i: self.fields[kvs[i][0]].perturb(kvs[i][1]).map(
-                    lambda w: kvs[:i] + [[kvs[i][0], w]] + kvs[i + 1:]))
-            opts += [ch, ch]
         removable = [i for i, (k, _) in enumerate(kvs) if k not in self.required]
+        ops = []
+        if kvs:
+            ops += ["change", "change"]
         if removable:
-            opts.append(st.sampled_from(removable).map(lambda i: kvs[:i] + kvs[i + 1:]))
+            ops.append("remove")
         if absent and (kvs or not self.required):
-            opts.append(st.sampled_from(absent).flatmap(
-                lambda n: self.fields[n].gen().map(lambda w: kvs + [[n, w]])))
+            ops.append("add")
         if not kvs and self.required:
-            opts.append(st.tuples(*[self.fields[n].gen() for n in self.required]).map(
-                lambda vals: [[n, w] for n, w in zip(self.required, vals)]))
-        return st.one_of(*opts).map(lambda x: {"$dict": x})
+            ops.append("start")
+        op = pick(draw, ops)
+        if op == "change":
+            i = index(draw, len(kvs))
+            return {"$dict": kvs[:i] + [[kvs[i][0], self.fields[kvs[i][0]].perturb(draw, kvs[i][1])]] + kvs[i + 1:]}
+        if op == "remove":
+            i = pick(draw, removable)
+            return {"$dict": kvs[:i] + kvs[i + 1:]}
+        if op == "add":
+            n = pick(draw, absent)
+            return {"$dict": kvs + [[n, draw(self.fields[n].strategy())]]}
+        return {"$dict": [[n, draw(self.fields[n].strategy())] for n in self.required]}
 
 
 class Const(Kind):
@@ -366,14 +445,22 @@ class Const(Kind):
         return st.just(self.v)
 
 
+def mixed_point():
+    """One coordinate in the hundreds, the other tiny: arrays of mixed magnitude."""
+    return st.tuples(st.floats(100.0, 1000.0), st.floats(-0.1, 0.1), st.booleans(), st.sampled_from([-1.0, 1.0])).map(
+        lambda t: [t[3] * t[0], t[1]] if t[2] else [t[1], t[3] * t[0]])
+
+
 class Point(Kind):
     def gen(self):
-        return st.tuples(coordinate(), coordinate()).map(lambda p: {"$arr": list(p)})
+        plain = st.tuples(coordinate(), coordinate()).map(list)
+        return st.one_of(plain, plain, plain, plain, mixed_point()).map(lambda p: {"$arr": p})
 
-    def perturb(self, v):
+    def perturb(self, draw, v):
         p = v["$arr"]
-        return st.integers(0, 1).flatmap(lambda i: COORD.perturb(p[i]).map(
-            lambda w: {"$arr": [w if j == i else p[j] for j in range(2)]}))
+        i = index(draw, 2)
+        w = COORD.perturb(draw, p[i])
+        return {"$arr": [w if j == i else p[j] for j in range(2)]}
 
     def accepts(self, v):
         return isinstance(v, dict) and "$arr" in v
@@ -382,20 +469,30 @@ class Point(Kind):
 POINT = Point()
 
 
-def small_move(v):
+def small_move(draw, v):
     """Moves that keep generated geometry valid: absolute 1e-9..1e-8 (|v| <= 1e3) or relative 1e-6..1e-5."""
     v = float(v)
+    sign = pick(draw, [-1.0, 1.0])
+    if index(draw, 2) == 0 and abs(v) <= ABS_LIMIT:
+        return v + sign * draw(F_ABS)
+    return v + sign * 1e-6 * draw(F_MANT) * (1.0 + abs(v))
 
-    def move(t):
-        mode, f_abs, mant, sign = t
-        d = f_abs if (mode == "abs" and abs(v) <= ABS_LIMIT) else 1e-6 * mant * (1.0 + abs(v))
-        return v + sign * d
-    return st.tuples(st.sampled_from(["abs", "rel"]), st.floats(1e-9, 1e-8), st.floats(1.0, 9.5),
-                     st.sampled_from([-1.0, 1.0])).map(move)
+
+def move_vertex(draw, pts):
+    n = len(pts)
+    i = n // 2 if index(draw, 3) == 0 else index(draw, n)
+    j = index(draw, 2)
+    w = small_move(draw, pts[i][j])
+    out = [list(q) for q in pts]
+    out[i][j] = w
+    return out
+
+
+LONG_ONE_IN = 40      # how often a long (> 500 vertices) polyline / polygon is generated
 
 
 class Polyline(Kind):
-    """(n,2) vertex arrays; perturbation = one coordinate of one vertex (interior vertices preferred for long lines)."""
+    """(n,2) vertex arrays; perturbation = one coordinate of one vertex."""
 
     def __init__(self, nmin=2, nmax=6, long=True):
         self.nmin, self.nmax, self.long = nmin, nmax, long
@@ -413,16 +510,11 @@ class Polyline(Kind):
         normal = st.tuples(p0, angle(), st.lists(step, min_size=self.nmin - 1, max_size=self.nmax - 1)).map(walk)
         if not self.long:
             return normal
-        long = st.tuples(p0, angle(), st.integers(500, 520).map(lambda n: [(1.0, 0.001)] * n)).map(walk)
-        return st.one_of(*([normal] * 15 + [long]))
+        long = st.tuples(p0, angle(), st.integers(500, 510).map(lambda n: [(1.0, 0.001)] * n)).map(walk)
+        return st.one_of(*([normal] * (LONG_ONE_IN - 1) + [long]))
 
-    def perturb(self, v):
-        pts = v["$arr"]
-        n = len(pts)
-        idx = st.one_of(st.integers(0, n - 1), st.just(n // 2))
-        return st.tuples(idx, st.integers(0, 1)).flatmap(lambda ij: small_move(pts[ij[0]][ij[1]]).map(
-            lambda w: {"$arr": [[w if (i == ij[0] and j == ij[1]) else pts[i][j] for j in range(2)]
-                                for i in range(n)]}))
+    def perturb(self, draw, v):
+        return {"$arr": move_vertex(draw, v["$arr"])}
 
     def accepts(self, v):
         return isinstance(v, dict) and "$arr" in v
@@ -444,21 +536,22 @@ class PolyVerts(Kind):
             c, r, n = t
             return {"$arr": [[c[0] + r * math.cos(TWO_PI * k / n), c[1] + r * math.sin(TWO_PI * k / n)]
                              for k in range(n)]}
-        long = st.tuples(st.tuples(coordinate(), coordinate()), st.floats(50.0, 200.0), st.integers(501, 520)).map(big)
-        return st.one_of(*([base] * 15 + [long]))
+        long = st.tuples(st.tuples(coordinate(), coordinate()), st.floats(50.0, 200.0), st.integers(501, 510)).map(big)
+        return st.one_of(*([base] * (LONG_ONE_IN - 1) + [long]))
 
-    def perturb(self, v):
+    def perturb(self, draw, v):
         pts = v["$arr"]
-        n = len(pts)
-        move = st.tuples(st.one_of(st.integers(0, n - 1), st.just(n // 2)), st.integers(0, 1)).flatmap(
-            lambda ij: small_move(pts[ij[0]][ij[1]]).map(
-                lambda w: [[w if (i == ij[0] and j == ij[1]) else pts[i][j] for j in range(2)] for i in range(n)]))
-        opts = [move, move, move, move]
+        ops = ["move"] * 5 + ["reverse", "rotate"]
         if pts[0] != pts[-1]:
-            opts.append(st.just(pts + [pts[0]]))          # closed ring
-        opts.append(st.just(pts[::-1]))                    # opposite direction
-        opts.append(st.just(pts[1:] + pts[:1]))            # other start vertex
-        return st.one_of(*opts).map(lambda p: {"$arr": p})
+            ops.append("close")
+        op = pick(draw, ops)
+        if op == "move":
+            return {"$arr": move_vertex(draw, pts)}
+        if op == "close":
+            return {"$arr": pts + [pts[0]]}
+        if op == "reverse":
+            return {"$arr": pts[::-1]}
+        return {"$arr": pts[1:] + pts[:1]}
 
     def accepts(self, v):
         return isinstance(v, dict) and "$arr" in v
@@ -478,15 +571,15 @@ class Obj(Kind):
         return self._spec
 
     def gen(self):
-        return st.deferred(lambda: self.spec.gen_args()).map(lambda a: {"$o": self.name, "args": a})
+        return st.deferred(lambda: self.spec.args_strategy()).map(lambda a: {"$o": self.name, "args": a})
 
-    def perturb(self, v):
+    def perturb(self, draw, v):
         spec = self.spec
         args = v["args"]
+        if index(draw, 5) == 0:
+            return fresh(draw, self, lambda w: canon(w) != canon(v))
         names = [p for p in spec.all_params() if not spec.kind(p).fixed]
-        inner = st.sampled_from(names).flatmap(lambda p: spec.perturb_param(args, p)).map(
-            lambda ch: {"$o": self.name, "args": dict(args, **ch)})
-        return st.one_of(inner, inner, inner, self.gen().filter(lambda w: canon(w) != canon(v)))
+        return {"$o": self.name, "args": dict(args, **spec.perturb_param(draw, args, pick(draw, names)))}
 
     def accepts(self, v):
         return isinstance(v, dict) and v.get("$o") == self.name
@@ -497,13 +590,16 @@ class OneOf(Kind):
         self.kinds = kinds
 
     def gen(self):
-        return st.one_of(*[k.gen() for k in self.kinds])
+        return st.one_of(*[k.strategy() for k in self.kinds])
 
-    def perturb(self, v):
+    def perturb(self, draw, v):
         for i, k in enumerate(self.kinds):
             if k.accepts(v):
-                others = [o.gen() for j, o in enumerate(self.kinds) if j != i]
-                return st.one_of(k.perturb(v), k.perturb(v), *others)
+                others = [o for j, o in enumerate(self.kinds) if j != i]
+                c = index(draw, 2 + len(others))
+                if c < 2:
+                    return k.perturb(draw, v)
+                return draw(others[c - 2].strategy())
         raise HarnessError("OneOf: no alternative accepts %r" % (v,))
 
     def accepts(self, v):
@@ -531,6 +627,7 @@ class Spec:
         self.perturbers = dict(perturbers or {})
         self.valid = valid
         self.varkw = varkw
+        self._args_strategy = None
         if register:
             SPECS[name] = self
             SPEC_BY_TYPE[cls] = self
@@ -566,24 +663,27 @@ class Spec:
     def kind(self, p):
         return self.params[p] if p in self.params else self.content[p]
 
-    def gen_args(self):
-        if self._gen_args is not None:
-            return self._gen_args(self)
-        names = self.all_params()
-        s = st.tuples(*[self.kind(p).gen() for p in names]).map(lambda vals: dict(zip(names, vals)))
-        if self.valid is not None:
-            s = s.filter(self.valid)
-        return s
+    def args_strategy(self):
+        if self._args_strategy is None:
+            if self._gen_args is not None:
+                self._args_strategy = self._gen_args(self)
+            else:
+                names = self.all_params()
+                s = st.tuples(*[self.kind(p).strategy() for p in names]).map(lambda vals: dict(zip(names, vals)))
+                if self.valid is not None:
+                    s = s.filter(self.valid)
+                self._args_strategy = s
+        return self._args_strategy
 
-    def perturb_param(self, args, p):
-        """Strategy of {param: new value, ...}: normally only p; coupled parameters may bring companions along."""
-        if p in self.perturbers:
-            s = self.perturbers[p](self, args)
-        else:
-            s = self.kind(p).perturb(args[p]).map(lambda w: {p: w})
-        if self.valid is not None:
-            s = s.filter(lambda ch: self.valid(dict(args, **ch)))
-        return s
+    def perturb_param(self, draw, args, p):
+        """{param: new value, ...}: normally only p; coupled parameters may bring companions along."""
+        def make():
+            if p in self.perturbers:
+                return self.perturbers[p](self, draw, args)
+            return {p: self.kind(p).perturb(draw, args[p])}
+        if self.valid is None:
+            return make()
+        return retry(draw, make, lambda ch: self.valid(dict(args, **ch)))
 
     def getter(self, p):
         a = self.attrs.get(p, p)
@@ -718,35 +818,32 @@ REAL_DIFF = 5e-10   # perturbations are >= 1e-9; anything below 1e-10 is 'the sa
 def snap_cmp(a, b, path=""):
     """(verdict, where): SAME = identical; DIFFERENT = some leaf differs (reals: by more than 5e-10); UNSPECIFIED =
     only real differences inside the zone the statement does not decide."""
+    if a == b:                      # plain data: structural equality decides the common case quickly
+        return SAME, ""
     if is_number(a) and is_number(b):
-        if a == b:
-            return SAME, ""
         return (DIFFERENT if abs(a - b) > REAL_DIFF else UNSPECIFIED), path
     if type(a) is not type(b):
         return DIFFERENT, path
     if isinstance(a, dict):
         if set(a) != set(b):
             return DIFFERENT, path
-        worst, where = SAME, ""
-        for k in sorted(a):
-            v, w = snap_cmp(a[k], b[k], path + "/" + k)
-            if v == DIFFERENT:
-                return v, w
-            if v == UNSPECIFIED:
-                worst, where = v, w
-        return worst, where
-    if isinstance(a, list):
+        pairs = [(k, a[k], b[k]) for k in sorted(a)]
+    elif isinstance(a, list):
         if len(a) != len(b):
             return DIFFERENT, path
-        worst, where = SAME, ""
-        for i, (x, y) in enumerate(zip(a, b)):
-            v, w = snap_cmp(x, y, "%s/%d" % (path, i))
-            if v == DIFFERENT:
-                return v, w
-            if v == UNSPECIFIED:
-                worst, where = v, w
-        return worst, where
-    return (SAME, "") if a == b else (DIFFERENT, path)
+        pairs = [(i, x, y) for i, (x, y) in enumerate(zip(a, b))]
+    else:
+        return DIFFERENT, path
+    worst, where = SAME, ""
+    for k, x, y in pairs:
+        if x == y:
+            continue
+        v, w = snap_cmp(x, y, "%s/%s" % (path, k))
+        if v == DIFFERENT:
+            return v, w
+        if v == UNSPECIFIED:
+            worst, where = v, w
+    return worst, where
 
 
 # ================================================================================================= the classes
@@ -768,17 +865,17 @@ def _interval_gen(lo, hi, ints=False):
 
 
 def _interval_perturb(which, ints=False, lo=-1e6, hi=1e6):
-    def p(spec, args):
+    def p(spec, draw, args):
         a, b = args["start"], args["end"]
-        if ints:
-            cand = st.integers(1, 5).map(lambda d: a - d if which == "start" else b + d)
-            shrink = st.integers(1, 5).map(lambda d: a + d if which == "start" else b - d)
-            s = st.one_of(cand, shrink)
-        else:
-            s = real_perturbation(a if which == "start" else b, lo, hi)
+
+        def make():
+            if ints:
+                d = (1 + index(draw, 5)) * pick(draw, [-1, 1])
+                return (a if which == "start" else b) + d
+            return real_perturbation(draw, a if which == "start" else b, lo, hi)
         if which == "start":
-            return s.filter(lambda w: lo <= w <= b).map(lambda w: {"start": w})
-        return s.filter(lambda w: a <= w <= hi).map(lambda w: {"end": w})
+            return {"start": retry(draw, make, lambda w: lo <= w <= b)}
+        return {"end": retry(draw, make, lambda w: a <= w <= hi)}
     return p
 
 
@@ -909,7 +1006,7 @@ def _traj_gen(with_pose):
             used = [f for f, m in zip(fields, mask) if m or (with_pose and f in ("position", "orientation"))]
             if not used:
                 used = fields[:1]
-            one = st.tuples(*[_exact_field(f).gen() for f in used])
+            one = st.tuples(*[_exact_field(f).strategy() for f in used])
             return st.lists(one, min_size=n, max_size=n).map(lambda rows: {
                 "initial_time_step": t0,
                 "state_list": {"$list": [{"$o": cls_name, "args": dict(
@@ -920,30 +1017,29 @@ def _traj_gen(with_pose):
     return g
 
 
-def _traj_shift(spec, args):
-    def sh(d):
-        sl = [{"$o": s["$o"], "args": dict(s["args"], time_step=s["args"]["time_step"] + d)}
-              for s in args["state_list"]["$list"]]
-        return {"initial_time_step": args["initial_time_step"] + d, "state_list": {"$list": sl}}
-    return st.integers(1, 7).map(sh)
+def _traj_shift(spec, draw, args):
+    d = 1 + index(draw, 7)
+    sl = [{"$o": s["$o"], "args": dict(s["args"], time_step=s["args"]["time_step"] + d)}
+          for s in args["state_list"]["$list"]]
+    return {"initial_time_step": args["initial_time_step"] + d, "state_list": {"$list": sl}}
 
 
-def _traj_states(spec, args):
+def _traj_states(spec, draw, args):
     sl = args["state_list"]["$list"]
     used = [f for f, w in sl[0]["args"].items() if f != "time_step" and not is_default(w)]
-
-    def change(t):
-        i, f = t
-        return _exact_field(f).perturb(sl[i]["args"][f]).map(
-            lambda w: sl[:i] + [{"$o": sl[i]["$o"], "args": dict(sl[i]["args"], **{f: w})}] + sl[i + 1:])
-    ch = st.tuples(st.integers(0, len(sl) - 1), st.sampled_from(used)).flatmap(change)
-    last = sl[-1]
-    more = st.tuples(*[_exact_field(f).gen() for f in used]).map(lambda row: sl + [{"$o": last["$o"], "args": dict(
-        last["args"], time_step=last["args"]["time_step"] + 1, **dict(zip(used, row)))}])
-    opts = [ch, ch, ch, more]
-    if len(sl) > 1:
-        opts.append(st.just(sl[:-1]))
-    return st.one_of(*opts).map(lambda x: {"state_list": {"$list": x}})
+    ops = ["change", "change", "change", "append"] + (["drop"] if len(sl) > 1 else [])
+    op = pick(draw, ops)
+    if op == "change":
+        i, f = index(draw, len(sl)), pick(draw, used)
+        w = _exact_field(f).perturb(draw, sl[i]["args"][f])
+        out = sl[:i] + [{"$o": sl[i]["$o"], "args": dict(sl[i]["args"], **{f: w})}] + sl[i + 1:]
+    elif op == "append":
+        last = sl[-1]
+        row = {f: draw(_exact_field(f).strategy()) for f in used}
+        out = sl + [{"$o": last["$o"], "args": dict(last["args"], time_step=last["args"]["time_step"] + 1, **row)}]
+    else:
+        out = sl[:-1]
+    return {"state_list": {"$list": out}}
 
 
 STATE_ANY = OneOf(*[obj(n) for n in STATE_CLASSES])
@@ -1016,9 +1112,9 @@ def _lanelet_gen(spec):
         nx, ny = -math.sin(h), math.cos(h)
         return {"left": [[p[0] + w * nx, p[1] + w * ny] for p in c], "center": c,
                 "right": [[p[0] - w * nx, p[1] - w * ny] for p in c]}
-    long = st.tuples(st.tuples(coordinate(), coordinate()), angle(), st.floats(0.8, 3.0), st.integers(501, 520)).map(
+    long = st.tuples(st.tuples(coordinate(), coordinate()), angle(), st.floats(0.8, 3.0), st.integers(501, 510)).map(
         long_lines)
-    lines = st.one_of(*([G.lanelet_polylines(lim=1000)] * 15 + [long]))
+    lines = st.one_of(*([G.lanelet_polylines(lim=1000)] * (LONG_ONE_IN - 1) + [long]))
 
     def fix(t):
         ll, vals = t
@@ -1030,19 +1126,18 @@ def _lanelet_gen(spec):
         for k in ("left", "center", "right"):
             a[k + "_vertices"] = {"$arr": [list(map(float, p)) for p in ll[k]]}
         return {p: a[p] for p in spec.params}
-    return st.tuples(lines, st.tuples(*[spec.params[p].gen() for p in names])).map(fix)
+    return st.tuples(lines, st.tuples(*[spec.params[p].strategy() for p in names])).map(fix)
 
 
 def _adjacent(side):
     key, same = "adjacent_" + side, "adjacent_%s_same_direction" % side
 
-    def p(spec, args):
-        def companion(w):
-            ch = {key: w}
-            if not (is_default(w) or w is None) and not isinstance(args[same], bool):
-                ch[same] = True
-            return ch
-        return spec.params[key].perturb(args[key]).map(companion)
+    def p(spec, draw, args):
+        w = spec.params[key].perturb(draw, args[key])
+        ch = {key: w}
+        if not (is_default(w) or w is None) and not isinstance(args[same], bool):
+            ch[same] = True
+        return ch
     return p
 
 
@@ -1270,10 +1365,10 @@ FACET_CLASSES = [
 def case(draw, name):
     """{"cls", "args", "variants": [{"k": parameter, "set": {parameter(s): new value}}]}: one variant per parameter."""
     spec = SPECS[name]
-    args = draw(spec.gen_args())
+    args = draw(spec.args_strategy())
     variants = []
     for p in spec.all_params():
         if spec.kind(p).fixed:
             continue
-        variants.append({"k": p, "set": draw(spec.perturb_param(args, p))})
+        variants.append({"k": p, "set": spec.perturb_param(draw, args, p)})
     return {"cls": name, "args": args, "variants": variants}
